@@ -30,6 +30,10 @@ pub mod vmev;
 pub mod vgenm;
 #[path = "vmul.rs"]
 pub mod vmul;
+#[path = "vgend.rs"]
+pub mod vgend;
+#[path = "dupcast.rs"]
+pub mod dupcast;
 
 use crate::compile_util::*;
 use crate::util::*;
@@ -537,6 +541,9 @@ pub fn run_request(line: &str, out: &mut Out, hist: &mut Hist) {
 /// the k-th program of the vector stream for a seed: C01's generator, matrices only in the forms the Metal backend accepts
 pub fn vprogram(seed: u64, k: u64) -> String {
     let mut rng = Rng::new(seed.wrapping_mul(0x2545_F491_4F6C_DD1D) ^ k.wrapping_mul(0x9E37_79B9_7F4A_7C15) ^ 0x6d766563);
+    if k >= DUP_BASE {
+        return vgend::dup_program(k - DUP_BASE, &mut rng).0;
+    }
     if k % 5 == 4 {
         return vgenm::program(&mut rng);
     }
@@ -547,10 +554,22 @@ pub fn vprogram(seed: u64, k: u64) -> String {
     vgen::VGen::new(&mut rng, opts).program()
 }
 
+/// programs from `DUP_BASE` on: the operand-repetition family (`vgend.rs`)
+pub const DUP_BASE: u64 = 1_000_000;
+
 pub fn run_stream(args: &Args, out: &mut Out, hist: &mut Hist) {
     let n = if args.thorough() { 4000 } else { 300 };
-    for k in 0..n {
+    let nd = vgend::enumerated_len() + if args.thorough() { 1500 } else { 100 };
+    for k in (0..n).chain(DUP_BASE..DUP_BASE + nd) {
         let src = vprogram(args.seed, k);
+        if k >= DUP_BASE {
+            let mut trng = Rng::new(args.seed.wrapping_mul(0x2545_F491_4F6C_DD1D) ^ k.wrapping_mul(0x9E37_79B9_7F4A_7C15) ^ 0x6d766563);
+            hist.add(&vgend::dup_program(k - DUP_BASE, &mut trng).1);
+            // the decision of the struct-cast arm against its Lean model
+            if let Err(pn) = guard(|| dupcast::run_program(&src, out, hist)) {
+                out.case(&format!("C02.dup\t{}\t-", one_line(&src)), "harness-panic", &format!("SKIP:harness panic {}", pn));
+            }
+        }
         let mut arng = Rng::new(args.seed ^ (k.wrapping_mul(0x9E37_79B9_7F4A_7C15)) ^ 0x5eed);
         let mut local = Hist::default();
         if let Err(pn) = guard(|| run_program(&src, None, 5, &mut arng, out, &mut local)) {
